@@ -145,4 +145,257 @@ theorem derTDec_spec (der : List UInt8) (tag k : Nat) (h : derTDec der = .ok (ta
       left
       exact ⟨rfl, hl, rfl⟩
 
+theorem two7 : (2 : Nat) ^ 7 = 128 := by decide
+theorem two14 : (2 : Nat) ^ (7 + 7) = 16384 := by decide
+
+set_option maxRecDepth 8000 in
+theorem TForm_valid (der : List UInt8) (tag k : Nat) (h : TForm der tag k) : derTIsValid tag = true := by
+  obtain ⟨d0, hr0, h⟩ := h
+  have hb0 := (rd_ok_lt hr0).2
+  rcases h with ⟨_, hl, ht⟩ | ⟨hl, d1, hr1, hz, h⟩
+  · subst ht
+    unfold derTIsValid
+    rw [if_pos hb0, if_neg hl]
+  · have hb1 := (rd_ok_lt hr1).2
+    rcases h with ⟨_, h128, h31, ht⟩ | ⟨h128, d2, hr2, h⟩
+    · subst ht
+      unfold derTIsValid
+      have e1 : (d0 * 256 + d1) / 256 = d0 := by omega
+      have e2 : (d0 * 256 + d1) % 128 = d1 := by omega
+      rw [if_neg (by omega), if_neg (by omega), e1, e2, tValidLoop_stop _ _ _ _ (by omega)]
+      simp only []
+      rw [if_neg (by omega)]
+    · have hb2 := (rd_ok_lt hr2).2
+      rcases h with ⟨_, h2, ht⟩ | ⟨h2, d3, hr3, _, h3, ht⟩
+      · subst ht
+        unfold derTIsValid
+        have e1 : ((d0 * 256 + d1) * 256 + d2) / 256 = d0 * 256 + d1 := by omega
+        have e2 : ((d0 * 256 + d1) * 256 + d2) % 128 = d2 := by omega
+        have e3 : (d0 * 256 + d1) / 256 = d0 := by omega
+        have e4 : (d0 * 256 + d1) % 128 = d1 % 128 := by omega
+        rw [if_neg (by omega), if_neg (by omega), e1, e2,
+          tValidLoop_step _ _ _ _ (by omega) (by omega), e3, e4, tValidLoop_stop _ _ _ _ (by omega)]
+        simp only []
+        rw [two7, if_neg (by omegaW)]
+      · have hb3 := (rd_ok_lt hr3).2
+        subst ht
+        unfold derTIsValid
+        have e1 : (((d0 * 256 + d1) * 256 + d2) * 256 + d3) / 256 = (d0 * 256 + d1) * 256 + d2 := by omega
+        have e2 : (((d0 * 256 + d1) * 256 + d2) * 256 + d3) % 128 = d3 := by omega
+        have e3 : ((d0 * 256 + d1) * 256 + d2) / 256 = d0 * 256 + d1 := by omega
+        have e4 : ((d0 * 256 + d1) * 256 + d2) % 128 = d2 % 128 := by omega
+        have e5 : (d0 * 256 + d1) / 256 = d0 := by omega
+        have e6 : (d0 * 256 + d1) % 128 = d1 % 128 := by omega
+        rw [if_neg (by omega), if_neg (by omega), e1, e2,
+          tValidLoop_step _ _ _ _ (by omega) (by omega), e3, e4,
+          tValidLoop_step _ _ _ _ (by omega) (by omega), e5, e6, tValidLoop_stop _ _ _ _ (by omega)]
+        simp only []
+        rw [two7, two14, if_neg (by omegaW)]
+
+
+theorem rd_zero_cons {der : List UInt8} {d : Nat} (h : rd der 0 = .ok d) : ∃ x tl, der = x :: tl ∧ x.toNat = d := by
+  cases der with
+  | nil => simp [rd] at h
+  | cons x tl => exact ⟨x, tl, rfl, by simpa [rd] using h⟩
+
+theorem rd_succ_cons (x : UInt8) (tl : List UInt8) (i : Nat) : rd (x :: tl) (i + 1) = rd tl i := by simp [rd]
+
+set_option maxRecDepth 8000 in
+/-- CANONICAL (T): the accepted octets are exactly the code of the decoded tag -/
+theorem TForm_enc (der : List UInt8) (tag k : Nat) (h : TForm der tag k) : derTEnc tag = .ok (der.take k) := by
+  have hv := TForm_valid der tag k h
+  unfold derTEnc
+  rw [hv]; simp only [Bool.not_true, Bool.false_eq_true, if_false]
+  obtain ⟨d0, hr0, h⟩ := h
+  obtain ⟨x0, r0, e0, hx0⟩ := rd_zero_cons hr0
+  subst e0
+  have hb0 := UInt8.toNat_lt x0
+  rcases h with ⟨hk, hl, ht⟩ | ⟨hl, d1, hr1, hz, h⟩
+  · subst hk; subst ht; subst hx0
+    have hol : (if octLen x0.toNat = 0 then 1 else octLen x0.toNat) = 1 := by
+      by_cases hz : x0.toNat = 0
+      · rw [hz, octLen_zero]; rfl
+      · rw [octLen_small hz hb0]; rfl
+    rw [hol]
+    have := beBytes_beVal' 1 [x0] rfl
+    simp only [beVal_cons, beVal_nil, Nat.zero_mul, Nat.zero_add] at this
+    rw [this]; simp
+  · rw [rd_succ_cons] at hr1
+    obtain ⟨x1, r1, e1, hx1⟩ := rd_zero_cons hr1
+    subst e1
+    have hb1 := UInt8.toNat_lt x1
+    have h0 : x0.toNat ≠ 0 := by omega
+    rcases h with ⟨hk, h128, h31, ht⟩ | ⟨h128, d2, hr2, h⟩
+    · subst hk; subst ht; subst hx0; subst hx1
+      have hol : octLen (x0.toNat * 256 + x1.toNat) = 2 := by
+        rw [octLen_mul_add h0 _ hb1, octLen_small h0 hb0]
+      rw [hol]; simp only [show (2:Nat) ≠ 0 by decide, if_false]
+      have := beBytes_beVal' 2 [x0, x1] rfl
+      simp only [beVal_cons, beVal_nil, Nat.zero_mul, Nat.zero_add] at this
+      rw [this]; simp
+    · rw [rd_succ_cons, rd_succ_cons] at hr2
+      obtain ⟨x2, r2, e2, hx2⟩ := rd_zero_cons hr2
+      subst e2
+      have hb2 := UInt8.toNat_lt x2
+      rcases h with ⟨hk, h2, ht⟩ | ⟨h2, d3, hr3, hk, h3, ht⟩
+      · subst hk; subst ht; subst hx0; subst hx1; subst hx2
+        have hol : octLen ((x0.toNat * 256 + x1.toNat) * 256 + x2.toNat) = 3 := by
+          rw [octLen_mul_add (by omega) _ hb2, octLen_mul_add h0 _ hb1, octLen_small h0 hb0]
+        rw [hol]; simp only [show (3:Nat) ≠ 0 by decide, if_false]
+        have := beBytes_beVal' 3 [x0, x1, x2] rfl
+        simp only [beVal_cons, beVal_nil, Nat.zero_mul, Nat.zero_add] at this
+        rw [this]; simp
+      · rw [rd_succ_cons, rd_succ_cons, rd_succ_cons] at hr3
+        obtain ⟨x3, r3, e3, hx3⟩ := rd_zero_cons hr3
+        subst e3
+        have hb3 := UInt8.toNat_lt x3
+        subst hk; subst ht; subst hx0; subst hx1; subst hx2; subst hx3
+        have hol : octLen (((x0.toNat * 256 + x1.toNat) * 256 + x2.toNat) * 256 + x3.toNat) = 4 := by
+          rw [octLen_mul_add (by omega) _ hb3, octLen_mul_add (by omega) _ hb2, octLen_mul_add h0 _ hb1, octLen_small h0 hb0]
+        rw [hol]; simp only [show (4:Nat) ≠ 0 by decide, if_false]
+        have := beBytes_beVal' 4 [x0, x1, x2, x3] rfl
+        simp only [beVal_cons, beVal_nil, Nat.zero_mul, Nat.zero_add] at this
+        rw [this]; simp
+
+
+set_option maxRecDepth 8000 in
+/-- converse of derTDec_spec: every listed form is accepted with exactly that tag and length -/
+theorem derTDec_of_TForm (der : List UInt8) (tag k : Nat) (h : TForm der tag k) : derTDec der = .ok (tag, k) := by
+  obtain ⟨d0, hr0, h⟩ := h
+  have hl0 := (rd_ok_lt hr0).1
+  have hb0 := (rd_ok_lt hr0).2
+  unfold derTDec
+  rw [if_neg (by omega), hr0]; simp only []
+  rcases h with ⟨hk, hl, ht⟩ | ⟨hl, d1, hr1, hz, h⟩
+  · subst hk; subst ht
+    rw [if_neg hl]; simp only []
+    rw [tagLoop_stop der 1 _ 1 (by omega)]
+  · have hl1 := (rd_ok_lt hr1).1
+    have hb1 := (rd_ok_lt hr1).2
+    rw [if_pos hl, if_neg (by omega), hr1]; simp only []
+    rw [if_neg hz, tDecLoop_step der _ 0 1 d1 (by omega) hr1]
+    generalize ht1 : (0 * 256 + d1 % 128) % U32 = t1
+    have ht1' : t1 = d1 % 128 := by omegaW
+    rcases h with ⟨hk, h128, h31, ht⟩ | ⟨h128, d2, hr2, h⟩
+    · subst hk; subst ht
+      rw [if_pos (by omega)]; simp only []
+      rw [show (2 : Nat) - 1 = 1 from rfl, hr1]; simp only []
+      rw [if_neg (by omega)]; simp only []
+      rw [tagLoop_step der 2 d0 1 d1 (by omega) hr1, tagLoop_stop der 2 _ 2 (by omega)]
+      show R.ok ((d0 * 256 + d1) % 4294967296, 2) = _
+      rw [tagv2 d0 d1 hb0 hb1]
+    · have hl2 := (rd_ok_lt hr2).1
+      have hb2 := (rd_ok_lt hr2).2
+      rw [if_neg (by omega), tDecLoop_step der _ _ 2 d2 (by omega) hr2]
+      generalize ht2 : (t1 * 256 + d2 % 128) % U32 = t2
+      have ht2' : 31 ≤ t2 := by omegaW
+      rcases h with ⟨hk, h2, ht⟩ | ⟨h2, d3, hr3, hk, h3, ht⟩
+      · subst hk; subst ht
+        rw [if_pos (by omega)]; simp only []
+        rw [show (3 : Nat) - 1 = 2 from rfl, hr2]; simp only []
+        rw [if_neg (by omega)]; simp only []
+        rw [tagLoop_step der 3 d0 1 d1 (by omega) hr1, tagLoop_step der 3 _ 2 d2 (by omega) hr2,
+          tagLoop_stop der 3 _ 3 (by omega)]
+        show R.ok (((d0 * 256 + d1) % 4294967296 * 256 + d2) % 4294967296, 3) = _
+        rw [tagv3 d0 d1 d2 hb0 hb1 hb2]
+      · have hl3 := (rd_ok_lt hr3).1
+        have hb3 := (rd_ok_lt hr3).2
+        subst hk; subst ht
+        rw [if_neg (by omega), tDecLoop_step der _ _ 3 d3 (by omega) hr3]
+        generalize ht3 : (t2 * 256 + d3 % 128) % U32 = t3
+        have ht3' : 31 ≤ t3 := by omegaW
+        rw [if_pos (by omega)]; simp only []
+        rw [show (4 : Nat) - 1 = 3 from rfl, hr3]; simp only []
+        rw [if_neg (by omega)]; simp only []
+        rw [tagLoop_step der 4 d0 1 d1 (by omega) hr1, tagLoop_step der 4 _ 2 d2 (by omega) hr2,
+          tagLoop_step der 4 _ 3 d3 (by omega) hr3, tagLoop_stop der 4 _ 4 (by omega)]
+        show R.ok ((((d0 * 256 + d1) % 4294967296 * 256 + d2) % 4294967296 * 256 + d3) % 4294967296, 4) = _
+        rw [tagv4 d0 d1 d2 d3 hb0 hb1 hb2 hb3]
+
+
+theorem octLen_r2 {v : Nat} (h1 : 256 ≤ v) (h2 : v < 65536) : octLen v = 2 := by
+  rw [octLen_pos (by omega), octLen_small (by omega) (by omega)]
+theorem octLen_r3 {v : Nat} (h1 : 65536 ≤ v) (h2 : v < 16777216) : octLen v = 3 := by
+  rw [octLen_pos (by omega), octLen_r2 (by omega) (by omega)]
+theorem octLen_r4 {v : Nat} (h1 : 16777216 ≤ v) (h2 : v < 4294967296) : octLen v = 4 := by
+  rw [octLen_pos (by omega), octLen_r3 (by omega) (by omega)]
+
+/-- number of octets derTEnc writes -/
+def tCount (tag : Nat) : Nat := if octLen tag = 0 then 1 else octLen tag
+
+set_option maxRecDepth 8000 in
+/-- a valid tag, encoded and followed by anything, has one of the accepted forms -/
+theorem TForm_of_valid (tag : Nat) (hv : derTIsValid tag = true) (hlt : tag < U32) (rest : List UInt8) :
+    TForm (beBytes (tCount tag) tag ++ rest) tag (tCount tag) := by
+  unfold derTIsValid at hv
+  by_cases h1 : tag < 256
+  · rw [if_pos h1] at hv
+    have hl : tag % 32 ≠ 31 := by
+      intro hc; rw [if_pos hc] at hv; cases hv
+    have hk : tCount tag = 1 := by
+      unfold tCount
+      by_cases hz : tag = 0
+      · rw [hz, octLen_zero]; rfl
+      · rw [octLen_small hz h1]; rfl
+    rw [hk]
+    refine ⟨tag, ?_, Or.inl ⟨rfl, hl, rfl⟩⟩
+    show rd ([oct tag] ++ rest) 0 = _
+    simp [rd, toNat_oct]; omega
+  · rw [if_neg h1] at hv
+    by_cases hlast : tag % 256 / 128 = 1
+    · rw [if_pos hlast] at hv; cases hv
+    · rw [if_neg hlast] at hv
+      by_cases r2 : tag < 65536
+      · -- two octets
+        rw [tValidLoop_stop _ _ _ _ (by omega)] at hv; simp only [] at hv
+        have hc : ¬ (tag % 128 < 31 ∨ tag % 128 = 0 ∨ tag / 256 % 32 ≠ 31) := by
+          intro hc; rw [if_pos hc] at hv; cases hv
+        have hk : tCount tag = 2 := by unfold tCount; rw [octLen_r2 (by omega) r2]; rfl
+        rw [hk]
+        refine ⟨tag / 256, ?_, Or.inr ⟨by omega, tag % 256, ?_, by omega, Or.inl ⟨rfl, by omega, by omega, by omega⟩⟩⟩
+        · show rd ([oct (tag / 256), oct tag] ++ rest) 0 = _
+          simp [rd, toNat_oct]; omega
+        · show rd ([oct (tag / 256), oct tag] ++ rest) 1 = _
+          simp [rd, toNat_oct]
+      · by_cases hm1 : tag / 256 % 256 / 128 = 0
+        · rw [tValidLoop_none _ _ _ _ (by omega) hm1] at hv; cases hv
+        · rw [tValidLoop_step _ _ _ _ (by omega) hm1] at hv
+          by_cases r3 : tag < 16777216
+          · rw [tValidLoop_stop _ _ _ _ (by omega)] at hv; simp only [] at hv
+            have hc : ¬ (tag / 256 % 128 = 0 ∨ tag / 256 / 256 % 32 ≠ 31) := by
+              intro hc
+              rw [if_pos (by rcases hc with hc | hc; exact Or.inr (Or.inl hc); exact Or.inr (Or.inr hc))] at hv
+              cases hv
+            have hk : tCount tag = 3 := by unfold tCount; rw [octLen_r3 (by omega) r3]; rfl
+            rw [hk]
+            refine ⟨tag / 65536, ?_, Or.inr ⟨by omega, tag / 256 % 256, ?_, by omega, Or.inr ⟨by omega, tag % 256, ?_,
+              Or.inl ⟨rfl, by omega, by omega⟩⟩⟩⟩
+            · show rd ([oct (tag / 256 / 256), oct (tag / 256), oct tag] ++ rest) 0 = _
+              simp [rd, toNat_oct]; omega
+            · show rd ([oct (tag / 256 / 256), oct (tag / 256), oct tag] ++ rest) 1 = _
+              simp [rd, toNat_oct]
+            · show rd ([oct (tag / 256 / 256), oct (tag / 256), oct tag] ++ rest) 2 = _
+              simp [rd, toNat_oct]
+          · by_cases hm2 : tag / 256 / 256 % 256 / 128 = 0
+            · rw [tValidLoop_none _ _ _ _ (by omega) hm2] at hv; cases hv
+            · rw [tValidLoop_step _ _ _ _ (by omega) hm2, tValidLoop_stop _ _ _ _ (by omegaW)] at hv
+              simp only [] at hv
+              have hc : ¬ (tag / 256 / 256 % 128 = 0 ∨ tag / 256 / 256 / 256 % 32 ≠ 31) := by
+                intro hc
+                rw [if_pos (by rcases hc with hc | hc; exact Or.inr (Or.inl hc); exact Or.inr (Or.inr hc))] at hv
+                cases hv
+              have hk : tCount tag = 4 := by unfold tCount; rw [octLen_r4 (by omega) (by omegaW)]; rfl
+              rw [hk]
+              refine ⟨tag / 16777216, ?_, Or.inr ⟨by omega, tag / 65536 % 256, ?_, by omega, Or.inr ⟨by omega, tag / 256 % 256, ?_,
+                Or.inr ⟨by omega, tag % 256, ?_, rfl, by omega, by omega⟩⟩⟩⟩
+              · show rd ([oct (tag / 256 / 256 / 256), oct (tag / 256 / 256), oct (tag / 256), oct tag] ++ rest) 0 = _
+                simp [rd, toNat_oct]; omegaW
+              · show rd ([oct (tag / 256 / 256 / 256), oct (tag / 256 / 256), oct (tag / 256), oct tag] ++ rest) 1 = _
+                simp [rd, toNat_oct]; omega
+              · show rd ([oct (tag / 256 / 256 / 256), oct (tag / 256 / 256), oct (tag / 256), oct tag] ++ rest) 2 = _
+                simp [rd, toNat_oct]
+              · show rd ([oct (tag / 256 / 256 / 256), oct (tag / 256 / 256), oct (tag / 256), oct tag] ++ rest) 3 = _
+                simp [rd, toNat_oct]
+
+
 end Bee2V.C08
